@@ -540,6 +540,7 @@ func init() {
 	ops["gnames.explained"] = yes
 	ops["gnames.inferred"] = yes
 	ops["gnames.cmapfirst"] = yes
+	ops["gnames.cffkept"] = yes
 	ops["gnames.safe"] = yes
 }
 
@@ -1355,6 +1356,51 @@ func gnCffCidNamedFamily(c *Ctx) {
 	gnCffEmit(c, nms, tm, true)
 }
 
+// gnCffTextVsLaterName: partially named fonts where an unnamed LOW-gid glyph's text derives
+// (directly, or as .altN after a collision) the existing valid unique name of a HIGHER-gid glyph.
+func gnCffTextVsLaterName(c *Ctx) {
+	r := c.Rng
+	n := r.Range(4, 10)
+	nms := make([]string, n)
+	text := map[int]string{}
+	t := Pick(r, []string{"A", "B", "fi", "AB", "x"})
+	base := names.FromUnicode(t)
+	lo := r.Range(1, n-2)
+	hi := r.Range(lo+1, n-1)
+	text[lo] = t
+	switch r.Intn(3) {
+	case 0:
+		nms[hi] = base
+		c.Stat("cff-text-vs-later-name", "later-glyph-has-the-derived-name")
+	case 1: // a second low glyph with the same text: its .alt1 is the name of a later glyph
+		nms[hi] = base + ".alt1"
+		if lo+1 < hi {
+			text[lo+1] = t
+		} else {
+			text[lo] = t
+		}
+		text[r.Range(1, lo)] = t
+		c.Stat("cff-text-vs-later-name", "later-glyph-has-.alt1")
+	default:
+		nms[hi] = base
+		if hi+1 < n {
+			nms[hi+1] = base + ".alt1"
+		}
+		text[r.Range(1, lo)] = t
+		c.Stat("cff-text-vs-later-name", "later-glyphs-have-base-and-.alt1")
+	}
+	for g := 1; g < n; g++ {
+		if nms[g] == "" && r.Chance(1, 4) {
+			nms[g] = fmt.Sprintf("g%d", g)
+		}
+	}
+	if r.Bool() {
+		nms[0] = ".notdef"
+	}
+	c.Stat("stream", "cff-text-name-vs-later-existing-name")
+	gnCffEmit(c, nms, text, r.Chance(1, 3))
+}
+
 // gnCffEmit writes the verdict case for MakeSimple and the direct predicates on its real output.
 // text == nil stands for a nil glyphText map.
 func gnCffEmit(c *Ctx, nms []string, text map[int]string, cidKeyed bool) {
@@ -1429,6 +1475,9 @@ func gnCffEmit(c *Ctx, nms []string, text map[int]string, cidKeyed bool) {
 	// every name of the simple font is a legal glyph name: at most 31 characters from
 	// A-Z a-z 0-9 . _ , not starting with a digit or period (.notdef excepted)
 	c.Case(Direct, "gnames.safe", o, n >= 2)
+	// every existing valid name that is not .notdef and not a repetition of an earlier glyph's name
+	// is still the name of the same glyph
+	c.Case(Direct, "gnames.cffkept", fmt.Sprintf("in=%d init=%s invalid=%s ", n, gnHexNames(nms), gnHexNames(il))+o, n >= 2)
 	c.Case(Direct, "gnames.cffstable", line, n >= 2)
 }
 
@@ -1560,6 +1609,8 @@ func areaGNames(c *Ctx) {
 	gnEmit(c, "glyf", 4, nil, "kind=glyf n=4 nn=0 names= cmap=65:2,66:1,67:3 fu=65:41,66:42,67:43 gsub=", true, false)
 	// MakeSimple: two glyphs with the same 16-letter text: the derived name has 31 characters
 	gnCffEmit(c, make([]string, 4), map[int]string{1: "ABCDEFGHIJKLMNOP", 2: "ABCDEFGHIJKLMNOP", 3: "A"}, true)
+	// MakeSimple: glyph 1 unnamed with text "A", glyph 3 already named "A"
+	gnCffEmit(c, []string{".notdef", "", "B", "A"}, map[int]string{1: "A"}, false)
 	// MakeSimple on CID-keyed outlines whose glyphs already carry names: duplicate, invalid, placeholder-shaped
 	gnCffEmit(c, []string{"", "A", "A", "1bad name", "orn001", ""}, map[int]string{5: "A"}, true)
 	gnEmit(c, "cff", 4, []string{".notdef", "A", "B", "A"}, "kind=cff n=4 nn=4 names=2e6e6f74646566,41,42,41 cmap=65:1,66:2,67:3 fu=65:41,66:42,67:43 gsub=", true, true)
@@ -1578,6 +1629,8 @@ func areaGNames(c *Ctx) {
 			gnCffLongFamily(c)
 		case i%20 == 15:
 			gnCffCidNamedFamily(c)
+		case i%20 == 14:
+			gnCffTextVsLaterName(c)
 		case i%20 == 7:
 			gnLigFamily(c)
 		case i%20 == 17:
